@@ -63,7 +63,7 @@ def check(run, replay=None):
     bad = []
     corr_ok = False
     if front["build_ok"]:
-        corr_ok, bad, log = vlib.coq_eval_cases("C17", [c[3] for c in cases], run.dir, shard=max(200, len(cases) // 64 + 1),
+        corr_ok, bad, log = vlib.coq_eval_cases("C17", [c[3] for c in cases], run.dir, shard=max(100, min(600, len(cases) // 64 + 1)),
                                                 header=header, timeout=1500)
         run.oblige("correspondence C17: model = real BufferedMsgRelay (results, buffered(), inner calls) on every selected case",
                    corr_ok and not bad)
@@ -103,7 +103,7 @@ def check(run, replay=None):
     if broken:
         rep = {"theorem_or_correspondence": broken, "entry": "BufferedMsgRelay"}
         if bad:
-            k, spec, _, term = cases[bad[0]]
+            k, spec, _, term = min((cases[i] for i in bad), key=lambda c: (len(c[1]), c[1]))  # smallest disagreeing case
             rep.update({"spec": spec, "recorded": term[-600:], "note": "model and implementation differ on this case; the "
                         "conservation/id-match oracle holds on it"})
         run.violation("; ".join(b[:80] for b in broken), rep, found_input=False)
